@@ -28,16 +28,19 @@ Total(a) == NT(a) * NP(a) * NFlags
 
 Dirs == <<TRUE, FALSE>>
 HasAccents(a) == \E i \in 1..Len(Alphas[a].t) : HasAccent(Alphas[a].t[i])
-CaseOf(a, i) ==
+CaseArgs(a, i) ==
     LET t == StrOf(Alphas[a].t, i % NT(a))
         p == StrOf(Alphas[a].p, (i \div NT(a)) % NP(a))
         fl == i \div (NT(a) * NP(a))
         cs == fl % 2 = 1
         nrm == (fl \div 2) % 2 = 1
-        sch == Schemes[(fl \div 4) + 1]
         (* cases outside the contract of the matchers are skipped; normalisation is only crossed where an accent exists *)
-        live == Admissible(p, cs, nrm) /\ (nrm => HasAccents(a))
-    IN [t |-> t, p |-> p, cs |-> cs, norm |-> nrm, sch |-> sch, live |-> live,
-        r |-> IF ~live THEN <<>>
-              ELSE [n \in 1..(2 * Len(Kinds)) |-> F(Kinds[(n + 1) \div 2], t, p, cs, nrm, Dirs[2 - (n % 2)], sch, -1)]]
+    IN [t |-> t, p |-> p, cs |-> cs, norm |-> nrm, sch |-> Schemes[(fl \div 4) + 1],
+        live |-> Admissible(p, cs, nrm) /\ (nrm => HasAccents(a))]
+(* the case with the result of every matcher in both directions (no slab) *)
+CaseOf(a, i) ==
+    LET c == CaseArgs(a, i) IN
+    [t |-> c.t, p |-> c.p, cs |-> c.cs, norm |-> c.norm, sch |-> c.sch, live |-> c.live,
+     r |-> IF ~c.live THEN <<>>
+           ELSE [n \in 1..(2 * Len(Kinds)) |-> F(Kinds[(n + 1) \div 2], c.t, c.p, c.cs, c.norm, Dirs[2 - (n % 2)], c.sch, -1)]]
 ================================================================================
